@@ -123,9 +123,13 @@ class KernExporter(object):
             elements_starting = np.array(
                 list(self.part.iter_all(start=start_time, end=end_time)), dtype=object
             )
+            # Nothing starts at a time point where elements only end (e.g. the last one)
+            if len(elements_starting) == 0:
+                continue
             # Find notes
             note_mask = np.array(
-                [isinstance(el, spt.GenericNote) for el in elements_starting]
+                [isinstance(el, spt.GenericNote) for el in elements_starting],
+                dtype=bool,
             )
             if np.any(~note_mask):
                 bar_mask = np.array(
